@@ -415,6 +415,125 @@ def check_apply_always(ctx: Ctx, rule: str) -> None:
                 ctx.ob(rule, 'process_resource_event: apply() receives the delays returned by process_resource_causes and the cycle\'s patch', d is not None and dotted(d) == src_d
                        and pz is not None and dotted(pz) == 'patch', loc=f.loc(c), construct=construct(f, 'flow:apply(delays=, patch=)'), detail=f'delays={norm(d, 30)} patch={norm(pz, 30)}')
 
+
+def check_deliver_results(ctx: Ctx, rule: str) -> None:
+    """progression.deliver_results and its call sites: the result a handler returned (no exception, not None) is written into the cycle's patch under
+    status.<handler id> on every path, in every cycle kind that persists state (changing, watching, sub-handling, daemons, timers)."""
+    from ..rules import cond_implies
+    repo = ctx.repo
+    f, g = cfg_of(ctx, 'progression.deliver_results')
+    loops = [n for n in g.nodes if n.kind == 'loop' and isinstance(n.stmt, ast.For)]
+    ctx.require_sites(rule, 'deliver_results: loop over the outcomes', len(loops), 1, f.loc())
+    pparam = 'patch'
+
+    def writes_patch(x: ast.AST) -> bool:
+        if isinstance(x, ast.Assign):
+            return any(pparam in {n.id for n in ast.walk(t) if isinstance(n, ast.Name)} for t in x.targets if isinstance(t, ast.Subscript))
+        if isinstance(x, ast.Call) and isinstance(x.func, ast.Attribute) and x.func.attr in ('update', '__setitem__'):
+            return pparam in {n.id for n in ast.walk(x.func.value) if isinstance(n, ast.Name)}
+        return False
+    W = g.stmt_nodes(writes_patch)
+    ctx.require_sites(rule, 'deliver_results: writes of a result into the patch (mapping results merged, other results stored)', len(W), 2, f.loc())
+
+    def assume(test, outcome):
+        def contradicts(e, o):
+            if isinstance(e, ast.Compare) and len(e.ops) == 1 and isinstance(e.comparators[0], ast.Constant) and e.comparators[0].value is None \
+                    and isinstance(e.left, ast.Attribute):
+                if e.left.attr == 'exception':   # assumption: exception is None
+                    return (isinstance(e.ops[0], ast.IsNot) and o is True) or (isinstance(e.ops[0], ast.Is) and o is False)
+                if e.left.attr == 'result':      # assumption: result is not None
+                    return (isinstance(e.ops[0], ast.Is) and o is True) or (isinstance(e.ops[0], ast.IsNot) and o is False)
+            return False
+        return False if cond_implies(test, outcome, contradicts) else None
+    for lp in loops:
+        r = g.reach([lp], stop=lambda n: n in set(W), edge_ok=g.pruned(assume))
+        skipped = lp in r
+        ctx.ob(rule, 'deliver_results: an outcome with no exception and a non-None result is written into the patch on every path of the iteration', not skipped,
+               loc=f.loc(lp.stmt), construct=construct(f, 'table:result => status write'))
+    for w in W:
+        conds = dominating_conditions_of(g, w)
+        exc_ok = any(cond_implies(t, o, lambda e, oo: isinstance(e, ast.Compare) and isinstance(e.left, ast.Attribute) and e.left.attr == 'exception'
+                                  and ((isinstance(e.ops[0], ast.IsNot) and oo is False) or (isinstance(e.ops[0], ast.Is) and oo is True))) for t, o in conds)
+        keyed = any(isinstance(c, ast.Constant) and c.value == 'status' for c in ast.walk(w.stmt))
+        idvars = {n.id for lp in loops for n in ast.walk(lp.stmt.target) if isinstance(n, ast.Name)}
+        by_id = bool(idvars & {n.id for n in ast.walk(w.stmt) if isinstance(n, ast.Name)})
+        ctx.ob(rule, 'deliver_results: a result is written only for an outcome without exception, under status.<handler id>', exc_ok and keyed and by_id, loc=f.loc(w.stmt),
+               construct=construct(f, 'guard:status write only without exception'), detail=f'exception-guard={exc_ok} status-key={keyed} by-id={by_id}')
+    # call sites: after every execution of handlers in a persisting cycle the results are delivered from the same outcomes into the cycle's patch
+    for ref, minimum in (('processing.process_changing_cause', 1), ('processing.process_watching_cause', 1), ('subhandling.execute', 1), ('daemons._daemon', 1), ('daemons._timer', 1)):
+        cf, cg = cfg_of(ctx, ref)
+        E = cg.call_nodes('execution.execute_handlers_once')
+        D = cg.call_nodes('progression.deliver_results')
+        ctx.require_sites(rule, f'{cf.name}: execute_handlers_once', len(E), minimum, cf.loc())
+
+        def normal_flow(a, b) -> bool:
+            return b not in a.exc_edges.values()
+        r = cg.reach(E, stop=lambda n: n in set(D), edge_ok=normal_flow)
+        bad = (cg.exit_normal in r) or bool(set(E) & r)
+        ctx.ob(rule, f'{cf.name}: every completed execution of handlers is followed by deliver_results before the cycle ends or the next execution starts', bool(D) and not bad,
+               loc=cf.loc(E[0].stmt) if E else cf.loc(), construct=construct(cf, 'allexits:execute -> deliver_results'))
+        for d in D:
+            for c in calls_in(d.stmt):
+                if any(q.endswith('progression.deliver_results') for q in repo.callee_names(cf, c)):
+                    o = kwarg(c, 'outcomes', 0)
+                    srcs = set()
+                    for e in E:
+                        st = e.stmt
+                        if isinstance(st, ast.Assign) and isinstance(st.targets[0], ast.Name):
+                            srcs.add(st.targets[0].id)
+                    ctx.ob(rule, f'{cf.name}: deliver_results receives the outcomes of that execution', o is not None and dotted(o) in srcs, loc=cf.loc(c),
+                           construct=construct(cf, 'flow:deliver_results(outcomes=)'), detail=f'{norm(o, 30)} not in {sorted(srcs)}')
+
+
+def dominating_conditions_of(g, node) -> list:
+    from ..rules import dominating_conditions
+    return [(t, o) for t, o, _ in dominating_conditions(g, node)]
+
+
+def check_response_payload(ctx: Ctx, rule: str) -> None:
+    """admission.build_response: the warnings are returned, all of them and in the order given; a non-empty JSON patch is returned (base64 of its JSON dump)
+    together with patchType=JSONPatch; neither depends on any other condition (e.g. on `allowed`)."""
+    repo = ctx.repo
+    f, g = cfg_of(ctx, 'admission.build_response')
+
+    def store_of(key: str):
+        def pred(x: ast.AST) -> bool:
+            return isinstance(x, ast.Assign) and any(isinstance(t, ast.Subscript) and isinstance(t.slice, ast.Constant) and t.slice.value == key for t in x.targets)
+        return g.stmt_nodes(pred)
+    for key, param in (('warnings', 'warnings'), ('patch', 'jsonpatch'), ('patchType', 'jsonpatch')):
+        nodes = store_of(key)
+        ctx.require_sites(rule, f"build_response: store of response['{key}']", len(nodes), 1, f.loc())
+        for n in nodes:
+            conds = dominating_conditions_of(g, n)
+            only_param = bool(conds) and all(isinstance(t, ast.Name) and t.id == param and o is True for t, o in conds)
+            ctx.ob(rule, f"build_response: response['{key}'] is set whenever `{param}` is non-empty, under no other condition", only_param, loc=f.loc(n.stmt),
+                   construct=construct(f, f'guard:{key} iff {param}'), detail='; '.join(f'{norm(t, 40)}={o}' for t, o in conds))
+            # the opposite direction: with a non-empty parameter no normal path skips the store
+            def assume(test, outcome, param=param):
+                return False if (isinstance(test, ast.Name) and test.id == param and outcome is False) else None
+            missing = g.escaping_exits([g.entry], [n], classes=('normal',), edge_ok=g.pruned(assume))
+            ctx.ob(rule, f"build_response: with a non-empty `{param}` every normal path sets response['{key}']", not missing, loc=f.loc(n.stmt),
+                   construct=construct(f, f'allexits:{param} => {key}'))
+            v = n.stmt.value
+            if key == 'warnings':
+                comp = v if isinstance(v, (ast.ListComp,)) else None
+                direct = comp is not None and len(comp.generators) == 1 and isinstance(comp.generators[0].iter, ast.Name) and comp.generators[0].iter.id == param \
+                    and not comp.generators[0].ifs
+                as_list = isinstance(v, ast.Call) and isinstance(v.func, ast.Name) and v.func.id == 'list' and len(v.args) == 1 and dotted(v.args[0]) == param
+                ctx.ob(rule, 'build_response: the returned warnings are all given warnings in the given order (a list built by iterating the parameter itself: '
+                             'no filter, no sorting, no set)', direct or as_list, loc=f.loc(v), construct=construct(f, 'flow:warnings in order'), detail=norm(v, 80))
+            if key == 'patch':
+                from ..rules import origin
+                o = origin(f, v)
+                calls = {repo.resolve(f.module, c.func) or '' for c in calls_in(o)} if o is not None else set()
+                dumps = [c for c in calls_in(o) if (repo.resolve(f.module, c.func) or '') == 'json.dumps'] if o is not None else []
+                ctx.ob(rule, 'build_response: the returned patch is the base64 encoding of json.dumps(jsonpatch)', 'base64.b64encode' in calls and bool(dumps)
+                       and all(c.args and dotted(c.args[0]) == param for c in dumps), loc=f.loc(v), construct=construct(f, 'flow:patch=b64(json(jsonpatch))'),
+                       detail=norm(o, 80))
+            if key == 'patchType':
+                ctx.ob(rule, "build_response: patchType is 'JSONPatch'", isinstance(v, ast.Constant) and v.value == 'JSONPatch', loc=f.loc(v),
+                       construct=construct(f, 'config:patchType'))
+
 # ---------------------------------------------------------------------------------------------------------------- cross-wiring
 def _c01_worker(ctx: Ctx, rule: str) -> None:
     from . import C01
@@ -516,4 +635,5 @@ EXTRA = {
 EXTRA['C02'] += [(check_record_field_mapping, 'R2.17')]
 EXTRA['C11'] += [(check_record_field_mapping, 'R11.8'), (check_pressure_relief, 'R11.9')]
 EXTRA['C03'] += [(check_pressure_relief, 'R3.10'), (check_apply_always, 'R3.11')]
-EXTRA['C08'] += [(check_apply_always, 'R8.9')]
+EXTRA['C08'] += [(check_apply_always, 'R8.9'), (check_deliver_results, 'R8.10')]
+EXTRA['C18'] += [(check_response_payload, 'R18.36')]
